@@ -235,6 +235,22 @@ class Check:
             print(f"  key={key} {what}"[:600])
         cov = dict(self.coverage)
         cov.setdefault("known_findings_reproduced", sorted(self.known_hits))
+        # Keys whose type the evidence schema fixes: keep them well-typed whatever a check put there
+        # (the original value moves to <key>_detail).
+        for k in ("evaluations", "distinct_nontrivial", "states", "transitions",
+                  "traces_validated_against_impl", "obligations", "discharged", "programs",
+                  "disagreements_checked"):
+            v = cov.get(k)
+            if v is not None and (isinstance(v, bool) or not isinstance(v, int)):
+                cov[k + "_detail"] = v
+                cov[k] = len(v) if hasattr(v, "__len__") else int(v)
+        for k in ("rule", "explanation", "checker_cmd"):
+            if k in cov and not isinstance(cov[k], str):
+                cov[k] = json.dumps(cov[k], default=str)
+        if "exhaustive" in cov and not isinstance(cov["exhaustive"], bool):
+            cov["exhaustive"] = bool(cov["exhaustive"])
+        if "samples" in cov and not isinstance(cov["samples"], list):
+            cov["samples"] = [cov["samples"]]
         ev = {
             "property_id": self.pid,
             "tier": self.tier,
